@@ -268,7 +268,8 @@ def extra_op(draw, allow_breaks=True):
     op = {"variant": draw(st.sampled_from(VARIANTS)), "arch": draw(st.sampled_from(ARCHES)),
           "path": draw(st.one_of(gen.rel_path, st.sampled_from(["Server/x86_64/os/GPL", "Server/x86_64/os/EULA", "Server/x86_64/osx/GPL", "GPL"]))),
           "size": draw(st.one_of(st.integers(0, 10 ** 6), st.integers(2 ** 32, 2 ** 40))),
-          "checksums": draw(st.dictionaries(st.sampled_from(["md5", "sha1", "sha256"]), gen.hexdigest, min_size=0, max_size=3)),
+          # the mapping is the caller's: type names are stored the way the producer spelled them (two spellings are two entries)
+          "checksums": draw(st.dictionaries(st.sampled_from(["md5", "sha1", "sha256", "md5", "sha256", "MD5", "SHA256", "Sha512"]), gen.hexdigest, min_size=0, max_size=3)),
           "break": None}
     if allow_breaks and draw(st.integers(0, 3)) == 0:
         brk = draw(st.sampled_from(["variant", "arch", "empty-path", "abs-path", "checksums-type"]))
